@@ -239,7 +239,11 @@ func (d *Decoder) readTypedList(tag byte) (interface{}, error) {
 
 		v := EnsureRawValue(item)
 		if isVariableArr {
-			aryValue = reflect.Append(aryValue, valueOrZero(v, aryType.Elem()))
+			cv, err := convertValue(v, aryType.Elem())
+			if err != nil {
+				return nil, newCodecError("readTypedList", err)
+			}
+			aryValue = reflect.Append(aryValue, cv)
 			holder.change(aryValue)
 		} else {
 			SetValue(aryValue.Index(j), v)
@@ -293,7 +297,11 @@ func (d *Decoder) readUntypedList(tag byte) (interface{}, error) {
 		}
 
 		if isVariableArr {
-			aryValue = reflect.Append(aryValue, valueOrZero(EnsureRawValue(it), aryValue.Type().Elem()))
+			if it == nil {
+				aryValue = reflect.Append(aryValue, reflect.Zero(aryValue.Type().Elem()))
+			} else {
+				aryValue = reflect.Append(aryValue, EnsureRawValue(it))
+			}
 			holder.change(aryValue)
 		} else {
 			ary[j] = it
